@@ -187,7 +187,7 @@ fn exec(t: &[&str]) -> String {
                 let k = match sk_of(wk, &b(key)) { Ok(k) => k, Err(_) => return "err".into() };
                 let w = make_vkey_witness(&h, &k);
                 let (vk, sg) = (w.vkey().public_key(), w.signature());
-                [ok(&vk.as_bytes()), ok(&sg.to_bytes()), okb(vk.verify(&hb, &sg))].join(" ")
+                [ok(&vk.as_bytes()), ok(&sg.to_bytes()), okb(vk.verify(&hb, &sg)), ok(&w.to_bytes())].join(" ")
             } else {
                 let addr = ByronAddress::from_bytes(byron_addr_bytes(&[0x5au8; 28], &dp, magic)).expect("byron address built by the harness");
                 let w = if wk == 2 {
@@ -198,7 +198,7 @@ fn exec(t: &[&str]) -> String {
                     make_daedalus_bootstrap_witness(&h, &addr, &k)
                 };
                 let (vk, sg) = (w.vkey().public_key(), w.signature());
-                [ok(&vk.as_bytes()), ok(&sg.to_bytes()), okb(vk.verify(&hb, &sg)), ok(&w.chain_code()), ok(&w.attributes())].join(" ")
+                [ok(&vk.as_bytes()), ok(&sg.to_bytes()), okb(vk.verify(&hb, &sg)), ok(&w.chain_code()), ok(&w.attributes()), ok(&w.to_bytes())].join(" ")
             }
         }
         ["derive", root, _n, path @ ..] => {
